@@ -7,6 +7,7 @@ Two flavours:
 """
 import datetime
 import hashlib
+import os
 
 import numpy as np
 
@@ -84,6 +85,9 @@ def sample_state(d, exact=True, with_acq=True):
     st['values'] = array_fp(arr, exact=exact)
     for f in STATE_FIELDS:
         k, v = get_field(d, f)
+        if f == 'infile' and k == 'ok' and isinstance(v, str):
+            # the scratch directory differs from process to process: keep the digest replayable
+            v = 'path:' + os.path.basename(v)
         st[f] = (k, canon(v) if k == 'ok' else v)
     if with_acq:
         k, v = get_field(d, 'acquisition_time')
